@@ -26,8 +26,10 @@ CONSTANTS MaxToks, MaxPrec
 Precs == 1..MaxPrec
 InfixTables == {f \in [{"i1"} -> [p : Precs, right : BOOLEAN]] : TRUE}
                \cup {f \in [{"i1", "i2"} -> [p : Precs, right : BOOLEAN]] : f["i1"].p <= f["i2"].p}
-PreTables  == {<<>>} \cup [{"pr"} -> Precs]
-PostTables == {<<>>} \cup [{"po"} -> Precs]
+\* two prefix (postfix) operators of DIFFERENT precedence: a looser one directly outside a tighter one, followed by an
+\* operator in between, is where a parser that handles a run of prefix operators at once goes wrong
+PreTables  == {<<>>} \cup [{"pr"} -> Precs] \cup {f \in [{"pr", "pr2"} -> Precs] : f["pr"] < f["pr2"]}
+PostTables == {<<>>} \cup [{"po"} -> Precs] \cup {f \in [{"po", "po2"} -> Precs] : f["po"] < f["po2"]}
 Levels(f) == {f[x] : x \in DOMAIN f}
 TableWF(T) == LET I == {T.inf[x].p : x \in DOMAIN T.inf}
               IN /\ I \cap Levels(T.pre) = {} /\ I \cap Levels(T.post) = {} /\ Levels(T.pre) \cap Levels(T.post) = {}
